@@ -13,7 +13,9 @@ use std::mem;
 
 verus! {
 
+//@keep-cfg statistics
 //@include _shared/registry_preamble_a.rs
+//@include _shared/statistics_items.rs
 opaque!(Channel);
 opaque!(BusListener);
 //@item core/src/message/subscribe_event.rs struct SubscribeEvent attr=derive(Clone,Copy)
@@ -49,6 +51,7 @@ impl ServiceInfo {
 //@include _shared/registry_preamble_b.rs
 impl Broker {
     //@include _shared/registry_inv.rs
+    //@include _shared/statistics_specs.rs
 
     // ---- per-event subscriptions -------------------------------------------------------------------------------
     //@fn broker/src/broker.rs Broker::subscribe_event
@@ -72,6 +75,7 @@ impl Broker {
                         && (forall|o: ServiceCookie| o != req.service_cookie ==> final(self).conns@[*id].ev(o) == old(self).conns@[*id].ev(o))
                         && final(self).conns@[*id].rest_eq(&old(self).conns@[*id], 3))
             },
+            final(self).stat_same(old(self)),   // no counter is touched
             // the invariant last (the frame facts above are then available), conjunct by conjunct (one query each
             // keeps the solver stable), then as a whole
             final(self).inv_objects(), final(self).inv_services(), final(self).inv_object_services(), final(self).inv_ownership(),
@@ -97,6 +101,7 @@ impl Broker {
                 &&& forall|o: ServiceCookie| o != req.service_cookie ==> final(self).conns@[*id].ev(o) == old(self).conns@[*id].ev(o)
                 &&& final(self).conns@[*id].rest_eq(&old(self).conns@[*id], 3)
             },
+            final(self).stat_same(old(self)),   // no counter is touched
             // the invariant last (the frame facts above are then available), conjunct by conjunct (one query each
             // keeps the solver stable), then as a whole
             final(self).inv_objects(), final(self).inv_services(), final(self).inv_object_services(), final(self).inv_ownership(),
@@ -132,6 +137,7 @@ impl Broker {
                         final(state).unsubscribe_event@ == old(state).unsubscribe_event@
                 &&& final(state).rest_eq(old(state), 5)
             },
+            final(self).stat_same(old(self)),   // no counter is touched
             // the invariant last (the frame facts above are then available), conjunct by conjunct (one query each
             // keeps the solver stable), then as a whole
             final(self).inv_objects(), final(self).inv_services(), final(self).inv_object_services(), final(self).inv_ownership(),
@@ -162,6 +168,7 @@ impl Broker {
                         final(state).unsubscribe_all_events@ == old(state).unsubscribe_all_events@
                 &&& final(state).rest_eq(old(state), 6)
             },
+            final(self).stat_same(old(self)),   // no counter is touched
             // the invariant last (the frame facts above are then available), conjunct by conjunct (one query each
             // keeps the solver stable), then as a whole
             final(self).inv_objects(), final(self).inv_services(), final(self).inv_object_services(), final(self).inv_ownership(),
@@ -183,6 +190,7 @@ impl Broker {
                 &&& final(self).svcs@[k].events == old(self).svcs@[k].events && final(self).svc_events_same(old(self), k)
                 &&& final(self).svcs@[k].all_events == old(self).svcs@[k].all_events
             },
+            final(self).stat_same(old(self)),   // no counter is touched
             // the invariant last (the frame facts above are then available), conjunct by conjunct (one query each
             // keeps the solver stable), then as a whole
             final(self).inv_objects(), final(self).inv_services(), final(self).inv_object_services(), final(self).inv_ownership(),
@@ -209,6 +217,7 @@ impl Broker {
                         && final(self).conns@[*id].subscriptions@ == old(self).conns@[*id].subscriptions@.insert(req.service_cookie)
                         && final(self).conns@[*id].rest_eq(&old(self).conns@[*id], 5) && final(self).conn_events_same(old(self), *id))
             },
+            final(self).stat_same(old(self)),   // no counter is touched
             // the invariant last (the frame facts above are then available), conjunct by conjunct (one query each
             // keeps the solver stable), then as a whole
             final(self).inv_objects(), final(self).inv_services(), final(self).inv_object_services(), final(self).inv_ownership(),
@@ -233,6 +242,7 @@ impl Broker {
                 &&& final(self).conns@[*id].subscriptions@ == old(self).conns@[*id].subscriptions@.remove(req.service_cookie)
                 &&& final(self).conns@[*id].rest_eq(&old(self).conns@[*id], 5) && final(self).conn_events_same(old(self), *id)
             },
+            final(self).stat_same(old(self)),   // no counter is touched
             // the invariant last (the frame facts above are then available), conjunct by conjunct (one query each
             // keeps the solver stable), then as a whole
             final(self).inv_objects(), final(self).inv_services(), final(self).inv_object_services(), final(self).inv_ownership(),
@@ -262,6 +272,7 @@ impl Broker {
                         && final(self).conns@[*id].all_events@ == old(self).conns@[*id].all_events@.insert(req.service_cookie)
                         && final(self).conns@[*id].rest_eq(&old(self).conns@[*id], 4) && final(self).conn_events_same(old(self), *id))
             },
+            final(self).stat_same(old(self)),   // no counter is touched
             // the invariant last (the frame facts above are then available), conjunct by conjunct (one query each
             // keeps the solver stable), then as a whole
             final(self).inv_objects(), final(self).inv_services(), final(self).inv_object_services(), final(self).inv_ownership(),
@@ -286,6 +297,7 @@ impl Broker {
                         && final(self).conns@[*id].all_events@ == old(self).conns@[*id].all_events@.remove(req.service_cookie)
                         && final(self).conns@[*id].rest_eq(&old(self).conns@[*id], 4) && final(self).conn_events_same(old(self), *id))
             },
+            final(self).stat_same(old(self)),   // no counter is touched
             // the invariant last (the frame facts above are then available), conjunct by conjunct (one query each
             // keeps the solver stable), then as a whole
             final(self).inv_objects(), final(self).inv_services(), final(self).inv_object_services(), final(self).inv_ownership(),
